@@ -212,6 +212,59 @@ def _shard_main(modname, tier, kind, shard, nshards, seed, n_examples, deadline,
         raise
 
 
+def run_in_child(mod, cases, timeout=900):
+    """Evaluate cases in a forked child (one child for the whole list; a new one after a crash) so that a
+    case that kills the interpreter cannot kill the check itself.  Returns outcomes in order."""
+    results = [None] * len(cases)
+    start = 0
+    while start < len(cases):
+        r, w = os.pipe()
+        pid = os.fork()
+        if pid == 0:
+            os.close(r)
+            try:
+                with os.fdopen(w, "wb") as f:
+                    for i in range(start, len(cases)):
+                        f.write(b"S%d\n" % i)
+                        f.flush()
+                        out = safe_run(mod, cases[i])
+                        blob = json.dumps(out, default=str).encode()
+                        f.write(b"R%d %d\n" % (i, len(blob)) + blob + b"\n")
+                        f.flush()
+            finally:
+                os._exit(0)
+        os.close(w)
+        last_started = None
+        with os.fdopen(r, "rb") as f:
+            while True:
+                line = f.readline()
+                if not line:
+                    break
+                if line.startswith(b"S"):
+                    last_started = int(line[1:])
+                elif line.startswith(b"R"):
+                    i, n = line[1:].split()
+                    blob = f.read(int(n))
+                    f.readline()
+                    results[int(i)] = json.loads(blob)
+        _, status = os.waitpid(pid, 0)
+        done = [i for i in range(start, len(cases)) if results[i] is not None]
+        if last_started is not None and results[last_started] is None:
+            san = san_report(pid)
+            code = -(status & 0x7f) if (status & 0x7f) else (status >> 8)
+            results[last_started] = viol("crash:" + (san[0] if san else "exit%s" % code),
+                                         "the interpreter died while running this case\n" + (san[1] if san else ""))
+            start = last_started + 1
+        else:
+            start = (max(done) + 1) if done else len(cases)
+            if start < len(cases) and last_started is None:
+                break
+    for i, r_ in enumerate(results):
+        if r_ is None:
+            results[i] = {"st": "harness", "detail": "child process produced no outcome", "nt": False, "labels": []}
+    return results
+
+
 # ---------------------------------------------------------------- campaign
 class Campaign:
     def __init__(self, mod, tier, seed, workers=None):
@@ -232,13 +285,18 @@ class Campaign:
         d = os.path.join(common.REPLAYS, self.mod.ID)
         if not os.path.isdir(d):
             return
+        cases = []
         for fn in sorted(os.listdir(d)):
             if not fn.endswith(".json"):
                 continue
             with open(os.path.join(d, fn)) as f:
                 obj = json.load(f)
-            case = obj["case"] if isinstance(obj, dict) and "case" in obj and "property" in obj else obj
-            out = self._isolated(case) if getattr(self.mod, "REPLAY_ISOLATED", False) else safe_run(self.mod, case)
+            cases.append(obj["case"] if isinstance(obj, dict) and "case" in obj and "property" in obj else obj)
+        if not cases:
+            return
+        # (in a forked child: a regression input may crash the interpreter on a changed tree)
+        outs = run_in_child(self.mod, cases)
+        for case, out in zip(cases, outs):
             out.setdefault("labels", []).append("replay")
             self.total.record(self.mod, case, out)
             self.replayed += 1
@@ -402,10 +460,16 @@ def shrink(mod, case, sig, budget_s, isolated=False, runner=None):
     improved = True
     while improved and time.time() < deadline:
         improved = False
+        batch = []
         for cand in moves(best):
-            if time.time() > deadline:
+            batch.append(cand)
+            if len(batch) >= 40:
                 break
-            out = runner(cand) if runner else safe_run(mod, cand)
+        if not batch:
+            break
+        # candidates are evaluated in a forked child: one of them may crash the interpreter
+        outs = [runner(c) for c in batch] if runner else run_in_child(mod, batch)
+        for cand, out in zip(batch, outs):
             if out["st"] == "viol" and out["sig"] == sig:
                 best = cand
                 steps += 1
